@@ -148,8 +148,26 @@ Definition s_ivcast (a : args) : list (list Z) :=
                  | Some xs => out_iv kind xs | None => err_out 1 end
   end.
 
+(* c13.ivfmt: [kind; strkind] [a] [b] [c] -> bytes.  kind 0 MonthDayNano (a b c = months days nanos), 1 DayTime
+   (a b = days millis), 2 YearMonth (a), 3 Duration, DurationFormat::Pretty (a = value, c = unit) *)
+Definition d_ivfmt (a : args) : list (list Z) :=
+  let kind := nth 0 (arg 0 a) 0 in
+  if kind =? 0 then [fmt_mdn (argz 1 a) (argz 2 a) (argz 3 a)]
+  else if kind =? 1 then [fmt_daytime (argz 1 a) (argz 2 a)]
+  else if kind =? 2 then [fmt_yearmonth (argz 1 a)]
+  else if kind =? 3 then [fmt_duration_pretty (argz 3 a) (argz 1 a)]
+  else unmodelled.
+(* c13.ivtext_rt.spec: [kind; strkind] [validity] [a] [b] [c]: interval -> text -> interval is the identity *)
+Definition s_ivtext_rt (a : args) : list (list Z) :=
+  let kind := nth 0 (arg 0 a) 0 in
+  let v := bools_of (arg 1 a) in
+  let col := fun g => map (fun s : bool * Z => if fst s then snd s else 0) (combine v g) in
+  if kind =? 0 then [zs_of_bools v; col (arg 2 a); col (arg 3 a); col (arg 4 a)]
+  else if kind =? 1 then [zs_of_bools v; col (arg 2 a); col (arg 3 a)]
+  else [zs_of_bools v; col (arg 2 a)].
+
 Definition ops_C13 : list (string * opfun) :=
   [ ("c13.cast", d_cast); ("c13.cast_m", d_cast); ("c13.cast.spec", s_cast); ("c13.inverse.spec", s_inverse);
     ("c13.fmt", d_fmt); ("c13.parse", d_parse); ("c13.parse.spec", s_parse); ("c13.parse_decimal", d_parse_decimal);
     ("c13.text_rt.spec", s_identity 2 3); ("c13.one.post1", p_one);
-    ("c13.ivcast", d_ivcast); ("c13.ivcast.spec", s_ivcast) ].
+    ("c13.ivcast", d_ivcast); ("c13.ivcast.spec", s_ivcast); ("c13.ivfmt", d_ivfmt); ("c13.ivtext_rt.spec", s_ivtext_rt) ].
